@@ -124,7 +124,7 @@ def runTrace (adv : Bool) (minLimit : Nat) (delAllExcess : Bool) : IO UInt32 := 
       -- statement size the sink counts — one size per statement in the model) and fa=<FilenameAppendOption> (the name
       -- carries the wall-clock date): the last two are driven with the property oracle only
       let base := (extras.filterMap (fun w => if w.startsWith "base=" then some (w.drop 5).toString else none)).headD "log.log"
-      let oracleOnly := extras.any (fun w => w.startsWith "sink=" || w.startsWith "fa=")
+      let oracleOnly := extras.any (fun w => w.startsWith "sink=" || w.startsWith "fa=" || w.startsWith "oo=")
       let sk := dst == "dst=1" || oracleOnly
       if sk then skipped := skipped + 1
       let blind := !scanSeesOwn base.toList base.toList
